@@ -95,6 +95,8 @@ func c16(c *Ctx) (*report.Result, error) {
 	checkInterceptorOrder(c, res, "O16.3")
 	checkNoBypassHeader(c, res, "O16.4")
 	checkListNamespaces(c, res, "O16.5")
+	res.RuleDoc["O16.10"] = "the namespace allow-list reaches the access check as it was configured (same analysis as O15.9): no append onto a truncated view of a list the function was handed in config, auth, interceptor or proxy"
+	checkNoAppendOntoBorrowedPrefix(c, res, "O16.10", []string{"config", "auth", "interceptor", "proxy"}, 5)
 	res.RuleDoc["O16.9"] = "the allow-list the access check matches against is the policy's: makeServerOptions hands NewAccessControlInterceptor aclPolicy.AllowedNamespaces itself, or the result of a helper that returns nothing but elements of it - a list extended with other names (translated aliases, defaults) admits requests for namespaces the policy does not list, e.g. a bypass-header request that names the alias (same analysis as O15.2)"
 	if f := resolve(c, res, "O16.9", anchor{"proxy", "", "makeServerOptions"}); f != nil {
 		checkACLBuiltFromPolicy(c, res, "O16.9", f)
